@@ -453,6 +453,28 @@ pub(crate) fn items(thorough: bool) -> Vec<Item> {
         clock_behind_ms: 0,
         });
     }
+    // the same with three peers and a quorum of two for the filter hashes beyond the last check
+    // point: one peer proves the new branch, the others adopt the proven state (no proof of their
+    // own); their votes for the filter hashes of the abandoned blocks must not survive
+    // (default environment only: while the quorum lags the client asks the switched peer again and
+    // again, so a run does not get quiescent and every deviation would cost a full horizon)
+    for (name, fork_at, tips) in [("shallow-fork-3peers", 18u64, [26u64, 26, 26])] {
+        v.push(Item {
+            name: name.into(),
+            chain_len: 22,
+            plan: plan(5, &[16, 24, 36, 24, 16, 24]),
+            fork: Some((fork_at, 26)),
+            peers: vec![(1, 0, 22), (2, 0, 22), (3, 0, 22)],
+            phases: vec![Phase::Move(1, 1, tips[0]), Phase::Move(2, 1, tips[1]), Phase::Move(3, 1, tips[2]), Phase::Move(1, 1, 26), Phase::Move(2, 1, 26)],
+            last_n: 4,
+            mmr_epoch: 0,
+            with_scripts: true,
+            seeds: vec![1],
+            bound: 0,
+            ahead: 0,
+            clock_behind_ms: 0,
+        });
+    }
     // the chain reorganises (within last-N) while the client is down: after the restart there is no
     // prove state, the request starts from the stored tip of the old branch, the server answers with
     // reorg headers and fewer than / exactly / more than last-N new headers
